@@ -1481,19 +1481,22 @@ namespace awkward {
   NumpyArray::getitem_next(const SliceItemPtr& head,
                            const Slice& tail,
                            const Index64& advanced) const {
-    Index64 carry(shape_[0]);
+    // the kernels below copy whole strides: on a strided array that reads the gap
+    // behind the last item, which need not belong to the buffer (getitem() does the same)
+    NumpyArray safe = contiguous();
+    Index64 carry(safe.shape_[0]);
     struct Error err = kernel::carry_arange<int64_t>(
       kernel::lib::cpu,   // DERIVE
       carry.data(),
-      shape_[0]);
+      safe.shape_[0]);
     util::handle_error(err, classname(), identities_.get());
-    return getitem_next(head,
-                        tail,
-                        carry,
-                        advanced,
-                        shape_[0],
-                        strides_[0],
-                        false).shallow_copy();
+    return safe.getitem_next(head,
+                             tail,
+                             carry,
+                             advanced,
+                             safe.shape_[0],
+                             safe.strides_[0],
+                             false).shallow_copy();
   }
 
   const ContentPtr
